@@ -180,16 +180,16 @@ impl ResolveRegistry {
 //@rule X8.closure-wildcard * s/\|_,/|_k,/
 //@end
 
-//@extract id=ResolveRegistry::resume file=crux_core/src/bridge/registry.rs within="impl ResolveRegistry" item="fn resume" props=C09+C12+C13
+//@extract id=ResolveRegistry::resume file=crux_core/src/bridge/registry.rs within="impl ResolveRegistry" item="fn resume" props=C02+C09+C12+C13
 //@expect pub fn resume( &self, id: EffectId, body: &mut dyn erased_serde::Deserializer, ) -> Result<(), BridgeError>
 //@sig fn resume(&mut self, id: EffectId, body: &mut ErasedDeserializer) -> (r: Result<(), BridgeError>)
 //@contract
         requires
             old(self)@.dom().contains(id.0 as usize), // a response to an OUTSTANDING request (for other ids the code panics, as documented)
         ensures
-            forall|k: usize| #![auto] k != id.0 as usize ==> (final(self)@.dom().contains(k) <==> old(self)@.dom().contains(k)), // [C09+C12+C13/resume/no-other-entry-added-or-removed]
-            forall|k: usize| #![auto] k != id.0 as usize && old(self)@.dom().contains(k) ==> final(self)@[k] == old(self)@[k], // [C09+C12/resume/no-other-entry-touched-even-when-rejected]
-            r == resolve_result(old(self)@[id.0 as usize], *old(body)), // [C09+C12/resume/result-is-the-addressed-entrys-own-resolution]
+            forall|k: usize| #![auto] k != id.0 as usize ==> (final(self)@.dom().contains(k) <==> old(self)@.dom().contains(k)), // [C02+C09+C12+C13/resume/no-other-entry-added-or-removed]
+            forall|k: usize| #![auto] k != id.0 as usize && old(self)@.dom().contains(k) ==> final(self)@[k] == old(self)@[k], // [C02+C09+C12/resume/no-other-entry-touched-even-when-rejected]
+            r == resolve_result(old(self)@[id.0 as usize], *old(body)), // [C02+C09+C12/resume/result-is-the-addressed-entrys-own-resolution]
             final(self)@.dom().contains(id.0 as usize) ==> final(self)@[id.0 as usize] == resolve_next(old(self)@[id.0 as usize], *old(body)), // [C09/resume/entry-advanced-only-by-its-own-resolution]
             kind(resolve_next(old(self)@[id.0 as usize], *old(body))) == 0 ==> !final(self)@.dom().contains(id.0 as usize), // [C13/resume/consumed-or-never-entry-is-forgotten]
             r == Err::<(), BridgeError>(BridgeError::ProcessResponse(ResolveError::FinishedMany)) ==> !final(self)@.dom().contains(id.0 as usize), // [C13/resume/ended-stream-is-forgotten]
